@@ -21,7 +21,9 @@ RULE = ('one SimpleLoop, 1-4 WorldHandle doubles (real WorldHandle.load, a trans
         'every operation may carry 1-3 one-shot reactions of the listener callbacks '
         '(on_world_load / on_switch_in / on_switch_out / on_quit: Quit, quit_loop, another '
         'exception, switch() and bare SwitchWorld - also while the loop is entering a world), '
-        'nested to any depth; non-trivial = at least 3 frames and one switch')
+        'nested to any depth; frame action direct = the_loop.switch(h, cc, cn) called inside '
+        'the frame; the time function returns floats (dyadic), ints, ints around 2**60 or '
+        'Fractions (thirds), dt is compared exactly as a value; non-trivial = at least 3 frames and one switch')
 TRUSTED = [
     'Coq 8.16.1 kernel + vm_compute (evaluation of C13_verdict on the observed logs)',
     'hand-written model Loop/Model.v tied to /repo by this correspondence run (sampled)',
